@@ -221,4 +221,135 @@ inductive WQReach (nw : Nat) : WQ → Prop
   | init : WQReach nw WQ.init
   | step {s s' : WQ} : WQReach nw s → WQStep nw s s' → WQReach nw s'
 
+
+/-! ## 3. Sharded-mailbox LTS (ShardedMailbox)
+
+  Any number of shards `nsh`, any task→shard map `sh`, any number of submitters, drain
+  goroutine instances created dynamically (`ng` fresh ids).  The WaitGroup is the list
+  `wg` of tokens (its counter is the length); `pend s` counts finishShardDrain calls of
+  shard `s` that cleared `scheduled` and still owe `wg.Done()` (that call is outside
+  the lock).  The locked region of SubmitHash is one step (see the reduction note in
+  Theorems/C37.lean); the drain's channel receives are steps of their own. -/
+
+structure MBCfg where
+  nsh : Nat
+  cap : Nat
+  sh : Nat → Nat
+  /-- `false` = as coded: finishShardDrain re-schedules only while neither the shard nor the
+      mailbox is closed.  `true` = proposed repair: re-schedule while the mailbox context is alive. -/
+  repaired : Bool
+
+/-- drain goroutine instance -/
+inductive GPc where
+  | dead
+  | invoked                  -- scheduled, `pool.Invoke` pending or accepted; drain not yet entered
+  | loop                     -- in the drain loop, about to call nextItem
+  | batch (b : List Nat)     -- collectBatch in progress
+  | handling (b : List Nat)  -- the handler is running on b
+  | sawEmpty                 -- nextItem's final empty check done; before finishShardDrain (the window)
+  deriving DecidableEq, Repr
+
+inductive MCPc where
+  | idle | closing (k : Nat) | ret
+  deriving DecidableEq, Repr
+
+structure MB where
+  pc : Nat → SPc             -- idle / checked / enqd / ret
+  queue : Nat → List Nat
+  scheduled : Nat → Bool
+  closedS : Nat → Bool
+  closedM : Bool
+  g : Nat → GPc
+  gs : Nat → Nat
+  ng : Nat
+  wg : List Nat
+  pend : Nat → Nat
+  c : MCPc
+  ctxAlive : Bool
+  log : List Ev
+
+def MB.init : MB :=
+  { pc := fun _ => .idle, queue := fun _ => [], scheduled := fun _ => false, closedS := fun _ => false,
+    closedM := false, g := fun _ => .dead, gs := fun _ => 0, ng := 0, wg := [], pend := fun _ => 0,
+    c := .idle, ctxAlive := true, log := [] }
+
+/-- finishShardDrain's re-schedule condition besides `len(queue) > 0` -/
+def reschedOk (cfg : MBCfg) (s : MB) (sd : Nat) : Bool :=
+  if cfg.repaired then s.ctxAlive else (!s.closedS sd && !s.closedM)
+
+inductive MBStep (cfg : MBCfg) : MB → MB → Prop
+  -- SubmitHash: first `m.closed.Load()`
+  | subClosed (s : MB) (t : Nat) : s.pc t = .idle → s.closedM = true →
+      MBStep cfg s { s with pc := upd s.pc t (.ret false), log := s.log ++ [.sub t (cfg.sh t), .rej t] }
+  | subCheck (s : MB) (t : Nat) : s.pc t = .idle → s.closedM = false →
+      MBStep cfg s { s with pc := upd s.pc t .checked, log := s.log ++ [.sub t (cfg.sh t)] }
+  -- any refusal in the locked region: closed, full, (context)
+  | subFail (s : MB) (t : Nat) : s.pc t = .checked →
+      MBStep cfg s { s with pc := upd s.pc t (.ret false), log := s.log ++ [.rej t] }
+  -- locked region, shard already scheduled
+  | subEnq (s : MB) (t : Nat) : s.pc t = .checked → s.closedS (cfg.sh t) = false → s.closedM = false →
+      (s.queue (cfg.sh t)).length < cfg.cap → s.scheduled (cfg.sh t) = true →
+      MBStep cfg s { s with pc := upd s.pc t .enqd, queue := upd s.queue (cfg.sh t) (s.queue (cfg.sh t) ++ [t]),
+                            log := s.log ++ [.enq t (cfg.sh t)] }
+  -- locked region, false→true edge of `scheduled`: wg.Add(1), a drain is invoked
+  | subEnqSched (s : MB) (t : Nat) : s.pc t = .checked → s.closedS (cfg.sh t) = false → s.closedM = false →
+      (s.queue (cfg.sh t)).length < cfg.cap → s.scheduled (cfg.sh t) = false →
+      MBStep cfg s { s with pc := upd s.pc t .enqd, queue := upd s.queue (cfg.sh t) (s.queue (cfg.sh t) ++ [t]),
+                            scheduled := upd s.scheduled (cfg.sh t) true, wg := cfg.sh t :: s.wg,
+                            g := upd s.g s.ng .invoked, gs := upd s.gs s.ng (cfg.sh t), ng := s.ng + 1,
+                            log := s.log ++ [.enq t (cfg.sh t)] }
+  | subRet (s : MB) (t : Nat) : s.pc t = .enqd →
+      MBStep cfg s { s with pc := upd s.pc t (.ret true), log := s.log ++ [.acc t] }
+  -- drain goroutine instance i
+  | gStart (s : MB) (i : Nat) : s.g i = .invoked →
+      MBStep cfg s { s with g := upd s.g i .loop, log := s.log ++ [.wup (s.gs i)] }
+  -- invokeShard's error paths (pool closed / context cancelled) go straight to finishShardDrain
+  | gAbort (s : MB) (i : Nat) : s.g i = .invoked → s.ctxAlive = false →
+      MBStep cfg s { s with g := upd s.g i .sawEmpty }
+  | gTake (s : MB) (i x : Nat) (q : List Nat) : s.g i = .loop → s.queue (s.gs i) = x :: q →
+      MBStep cfg s { s with g := upd s.g i (.batch [x]), queue := upd s.queue (s.gs i) q }
+  | gCollect (s : MB) (i x : Nat) (b q : List Nat) : s.g i = .batch b → s.queue (s.gs i) = x :: q →
+      MBStep cfg s { s with g := upd s.g i (.batch (b ++ [x])), queue := upd s.queue (s.gs i) q }
+  | gHandle (s : MB) (i : Nat) (b : List Nat) : s.g i = .batch b →
+      MBStep cfg s { s with g := upd s.g i (.handling b), log := s.log ++ (.bbeg (s.gs i) :: b.map .run) }
+  | gHandled (s : MB) (i : Nat) (b : List Nat) : s.g i = .handling b →
+      MBStep cfg s { s with g := upd s.g i .loop, log := s.log ++ (b.map .done ++ [.bend (s.gs i)]) }
+  -- nextItem: `s.mu.Lock(); if len(s.queue) == 0 { return false }`
+  | gEmpty (s : MB) (i : Nat) : s.g i = .loop → s.queue (s.gs i) = [] →
+      MBStep cfg s { s with g := upd s.g i .sawEmpty, log := s.log ++ [.wdn (s.gs i), .wend (s.gs i)] }
+  -- finishShardDrain's locked region
+  | gFinishResched (s : MB) (i : Nat) : s.g i = .sawEmpty → s.queue (s.gs i) ≠ [] → reschedOk cfg s (s.gs i) = true →
+      MBStep cfg s { s with g := upd s.g i .invoked }
+  | gFinishDone (s : MB) (i : Nat) : s.g i = .sawEmpty → (s.queue (s.gs i) = [] ∨ reschedOk cfg s (s.gs i) = false) →
+      MBStep cfg s { s with g := upd s.g i .dead, scheduled := upd s.scheduled (s.gs i) false,
+                            pend := upd s.pend (s.gs i) (s.pend (s.gs i) + 1) }
+  -- … and its `wg.Done()` after the unlock
+  | wgDone (s : MB) (sd : Nat) : 0 < s.pend sd →
+      MBStep cfg s { s with pend := upd s.pend sd (s.pend sd - 1), wg := s.wg.erase sd }
+  -- Close
+  | cStore (s : MB) : s.c = .idle →
+      MBStep cfg s { s with c := .closing 0, closedM := true, log := s.log ++ [.closeBeg] }
+  | cShard (s : MB) (k : Nat) : s.c = .closing k → k < cfg.nsh →
+      MBStep cfg s { s with c := .closing (k + 1), closedS := upd s.closedS k true }
+  | cRet (s : MB) : s.c = .closing cfg.nsh → s.wg = [] →
+      MBStep cfg s { s with c := .ret, ctxAlive := false, log := s.log ++ [closeOk] }
+
+inductive MBReach (cfg : MBCfg) : MB → Prop
+  | init : MBReach cfg MB.init
+  | step {s s' : MB} : MBReach cfg s → MBStep cfg s s' → MBReach cfg s'
+
+/-- a drain instance is live from its invocation until finishShardDrain un-schedules the shard -/
+def GPc.live : GPc → Bool
+  | .dead => false
+  | _ => true
+
+/-- an instance is inside the drain proper (between entering drainScheduledShard and finishShardDrain) -/
+def GPc.draining : GPc → Bool
+  | .dead | .invoked => false
+  | _ => true
+
+/-- per-shard subsequences of the log -/
+def enqsSh (cfg : MBCfg) (sd : Nat) (l : List Ev) : List Nat := (enqs l).filter fun t => cfg.sh t = sd
+def runsSh (cfg : MBCfg) (sd : Nat) (l : List Ev) : List Nat := (runs l).filter fun t => cfg.sh t = sd
+
 end WK.C37
